@@ -10,11 +10,14 @@
 //!     reported entry count / byte usage equal what is retrievable;
 //!  5. nothing panics.
 //!
-//! Failure keys are `C11:<system>:<category>:<window>` where `<window>` names
-//! the hook sites at which a pre-emption is *needed* for the failure (found by
-//! switching the pre-emptions of the failing schedule off one by one and
-//! re-running): the root cause of a race is the window of non-atomicity, not
-//! the particular program that exposes it.
+//! Failure keys are `C11:<system>:<category>:race=<a~b>[+<c~d>…]`: the pairs of
+//! operation kinds that race in the *reduced* failing case — `a` was pre-empted
+//! in the middle (at a hook site) and `b`, an operation of another task on the
+//! same key (or a clear), ran inside that window. The reduction switches the
+//! pre-emptions of the failing schedule off one by one and drops operations
+//! from the program as long as a failure of the same category remains, always
+//! by re-running. `:sequential` = fails without any pre-emption, `:whole-ops` =
+//! fails with pre-emptions between (never inside) operations only.
 
 use crate::lin::{self, Model, Timed};
 use crate::sched::Entry;
@@ -34,6 +37,11 @@ pub struct Analysis {
     pub preemptions: usize,
     /// sites at which a pre-emption happened (op.boundary excluded), sorted, distinct
     pub preempt_sites: Vec<&'static str>,
+    /// pre-emptions inside an operation (not at an operation boundary)
+    pub midop_preemptions: usize,
+    /// racing pairs "a~b" (a <= b): an operation of kind a/b was pre-empted mid-way while
+    /// an operation of the other kind, of another task, on the same key (or a clear) ran
+    pub pairs: BTreeSet<String>,
     /// all sites reached
     pub sites: BTreeSet<&'static str>,
     /// two operations of different tasks on the same key (or a clear) overlapped in time
@@ -261,21 +269,58 @@ pub fn analyze(case: &Case, run: &Run) -> Analysis {
     a.ops = calls.iter().filter(|c| c.task < SETUP_TASK).count();
 
     // trace facts
-    for e in &run.log {
-        if let Entry::Point { thread, site, next } = e {
+    let mut windows: Vec<(usize, usize, u8)> = Vec::new(); // (from, to, pre-empted task)
+    for (pos, e) in run.log.iter().enumerate() {
+        if let Entry::Point { thread, site, next, .. } = e {
             a.sites.insert(site);
             if site.starts_with("memory.perform_eviction") || site.starts_with("memory.evict_") {
                 a.eviction = true;
             }
             if next != thread {
                 a.preemptions += 1;
-                if *site != "op.boundary" && !a.preempt_sites.contains(site) {
-                    a.preempt_sites.push(site);
+                if *site != "op.boundary" {
+                    a.midop_preemptions += 1;
+                    if !a.preempt_sites.contains(site) {
+                        a.preempt_sites.push(site);
+                    }
+                    // the window ends when the pre-empted task does anything again
+                    let end = run.log[pos + 1..]
+                        .iter()
+                        .position(|x| match x {
+                            Entry::Point { thread: t, .. } | Entry::End { thread: t, .. } => t == thread,
+                            Entry::Event(Event::Invoke { task, .. }) | Entry::Event(Event::Return { task, .. }) => task == thread,
+                        })
+                        .map_or(run.log.len(), |d| pos + 1 + d);
+                    windows.push((pos, end, *thread));
                 }
             }
         }
     }
     a.preempt_sites.sort_unstable();
+    let kind = |op: Op| -> &'static str {
+        match (case.sys, op) {
+            (Sys::Container, Op::Get { .. }) => "read",
+            (Sys::Container, Op::Has { .. }) => "query",
+            (Sys::Container, Op::Put { .. }) => "write",
+            (_, Op::PutZero { .. }) => "put",
+            (_, o) => o.kind(),
+        }
+    };
+    for cross in [false, true] {
+        for &(from, to, t) in &windows {
+            let Some(x) = calls.iter().find(|c| c.task == t && c.inv < from && c.ret > from) else { continue };
+            for y in calls.iter().filter(|c| c.task != t && c.task < SETUP_TASK && c.inv < to && c.ret > from) {
+                if x.op.same_key(y.op) != cross {
+                    let (p, q) = (kind(x.op), kind(y.op));
+                    let (p, q) = if p <= q { (p, q) } else { (q, p) };
+                    a.pairs.insert(format!("{p}~{q}{}", if cross { "/other-key" } else { "" }));
+                }
+            }
+        }
+        if !a.pairs.is_empty() {
+            break;
+        }
+    }
 
     for (i, x) in calls.iter().enumerate() {
         for y in &calls[i + 1..] {
@@ -367,21 +412,31 @@ pub fn analyze(case: &Case, run: &Run) -> Analysis {
         match &run.figures {
             Err(e) => a.failures.push(Failure { category: "books:figures-returned-error".into(), detail: e.clone() }),
             Ok((size, entry_count, reported)) => {
-                let ctx = || format!("after all tasks finished and every key was read once: {} keys retrievable ({} bytes); history: {}", hits, bytes, describe_history(&calls));
+                let mut wrong: Vec<String> = Vec::new();
                 if case.sys == Sys::Container {
                     if *entry_count != hits {
-                        a.failures.push(Failure { category: "books:entry-count-differs".into(), detail: format!("entry_count() = {entry_count} — {}", ctx()) });
+                        wrong.push(format!("entry_count() = {entry_count}"));
                     }
                 } else {
                     if *entry_count != hits {
-                        a.failures.push(Failure { category: "books:entry-count-differs".into(), detail: format!("stats.entry_count = {entry_count} — {}", ctx()) });
+                        wrong.push(format!("stats.entry_count = {entry_count}"));
                     }
-                    if *size != hits && *entry_count == hits {
-                        a.failures.push(Failure { category: "books:size-differs".into(), detail: format!("size() = {size} — {}", ctx()) });
+                    if *size != hits {
+                        wrong.push(format!("size() = {size}"));
                     }
                     if *reported != bytes {
-                        a.failures.push(Failure { category: "books:bytes-differ".into(), detail: format!("stats reports {reported} bytes — {}", ctx()) });
+                        wrong.push(format!("stats reports {reported} bytes"));
                     }
+                }
+                if !wrong.is_empty() {
+                    a.failures.push(Failure {
+                        category: "books".into(),
+                        detail: format!(
+                            "{} — but after all tasks finished and every key was read once {hits} key(s) are retrievable, {bytes} bytes in total; history: {}",
+                            wrong.join(", "),
+                            describe_history(&calls)
+                        ),
+                    });
                 }
             }
         }
@@ -401,39 +456,165 @@ pub fn trim_schedule(case: &mut Case, unused: usize) {
     }
 }
 
-/// Switch pre-emptions off one by one (last first) as long as a failure of
-/// `category` remains. Returns the reduced case and its analysis.
+/// Which operation a consumed schedule element belongs to.
+#[derive(Debug, Clone, Copy, PartialEq, Eq)]
+enum Owner {
+    Start,
+    /// a site inside operation `opi` of `task`
+    In { task: u8, opi: u8 },
+    /// the boundary before operation `opi` of `task`
+    Before { task: u8, opi: u8 },
+    End,
+}
+
+fn owners(run: &Run, ntasks: usize) -> Vec<Owner> {
+    let mut out = Vec::new();
+    if ntasks >= 2 {
+        out.push(Owner::Start);
+    }
+    let mut cur: [u8; 8] = [0; 8]; // index of the operation a task is in / has last been in
+    for e in &run.log {
+        match e {
+            Entry::Event(Event::Invoke { task, opi, .. }) if (*task as usize) < cur.len() => cur[*task as usize] = *opi,
+            Entry::Point { thread, site, choice: true, .. } => {
+                let opi = cur[*thread as usize];
+                out.push(if *site == "op.boundary" { Owner::Before { task: *thread, opi: opi + 1 } } else { Owner::In { task: *thread, opi } });
+            }
+            Entry::End { choice: true, .. } => out.push(Owner::End),
+            _ => {}
+        }
+    }
+    out
+}
+
+struct Tried {
+    an: Analysis,
+    owners: Vec<Owner>,
+}
+
+fn try_candidate(cand: &mut Case, category: &str) -> Result<Option<Tried>, String> {
+    let run = run_case(cand)?;
+    trim_schedule(cand, run.unused_schedule);
+    let an = analyze(cand, &run);
+    Ok(if an.failures.iter().any(|f| f.category == category) { Some(Tried { owners: owners(&run, cand.tasks.len()), an }) } else { None })
+}
+
+/// `case` without operation `opi` of `task`; the schedule elements that were consumed
+/// inside that operation (and at one adjacent boundary) are taken out so that the
+/// remaining choices keep their meaning.
+fn without_op(case: &Case, own: &[Owner], task: usize, opi: usize) -> Case {
+    let mut c = case.clone();
+    c.tasks[task].remove(opi);
+    let (t, i) = (task as u8, opi as u8);
+    let boundary = if opi > 0 { Owner::Before { task: t, opi: i } } else { Owner::Before { task: t, opi: 1 } };
+    let mut sched = Vec::with_capacity(case.schedule.len());
+    for (idx, &v) in case.schedule.iter().enumerate() {
+        match own.get(idx) {
+            Some(o) if *o == (Owner::In { task: t, opi: i }) || *o == boundary => {}
+            _ => sched.push(v),
+        }
+    }
+    c.schedule = sched;
+    c
+}
+
+/// Reduce a failing case: switch pre-emptions off one by one (last first), drop
+/// operations one by one, switch pre-emptions off again — each step is kept
+/// only if a re-run still shows a failure of `category`.
 /// `Err` = infrastructure trouble during a re-run.
 pub fn minimize(case: &Case, category: &str) -> Result<(Case, Analysis), String> {
     let mut cur = case.clone();
-    let run = run_case(&cur)?;
-    trim_schedule(&mut cur, run.unused_schedule);
-    let mut cur_an = analyze(&cur, &run);
-    if !cur_an.failures.iter().any(|f| f.category == category) {
+    let Some(mut cur_t) = try_candidate(&mut cur, category)? else {
         return Err(format!("failure {category} did not reproduce on re-run (non-deterministic run?)"));
-    }
-    let mut idx = cur.schedule.len();
-    while idx > 0 {
-        idx -= 1;
-        if idx >= cur.schedule.len() || cur.schedule[idx] == 0 {
-            continue;
+    };
+    for pass in 0..3 {
+        // pre-emptions (and the start / end choices)
+        let mut idx = cur.schedule.len();
+        while idx > 0 {
+            idx -= 1;
+            if idx >= cur.schedule.len() || cur.schedule[idx] == 0 {
+                continue;
+            }
+            let mut cand = cur.clone();
+            cand.schedule[idx] = 0;
+            if let Some(t) = try_candidate(&mut cand, category)? {
+                cur = cand;
+                cur_t = t;
+            }
         }
-        let mut cand = cur.clone();
-        cand.schedule[idx] = 0;
-        let run = run_case(&cand)?;
-        trim_schedule(&mut cand, run.unused_schedule);
-        let an = analyze(&cand, &run);
-        if an.failures.iter().any(|f| f.category == category) {
-            cur = cand;
-            cur_an = an;
+        if pass == 2 {
+            break;
+        }
+        // operations
+        let mut changed = false;
+        for t in 0..cur.tasks.len() {
+            let mut i = cur.tasks[t].len();
+            while i > 0 {
+                i -= 1;
+                let mut cand = without_op(&cur, &cur_t.owners, t, i);
+                if let Some(tr) = try_candidate(&mut cand, category)? {
+                    cur = cand;
+                    cur_t = tr;
+                    changed = true;
+                }
+            }
+        }
+        let mut i = cur.setup.len();
+        while i > 0 {
+            i -= 1;
+            let mut cand = cur.clone();
+            cand.setup.remove(i);
+            if let Some(tr) = try_candidate(&mut cand, category)? {
+                cur = cand;
+                cur_t = tr;
+                changed = true;
+            }
+        }
+        if !changed {
+            break;
         }
     }
-    Ok((cur, cur_an))
+    Ok((cur, cur_t.an))
+}
+
+pub fn race_of(an: &Analysis) -> String {
+    if an.preemptions == 0 {
+        "sequential".to_string()
+    } else if an.midop_preemptions == 0 {
+        "whole-ops".to_string()
+    } else if an.pairs.is_empty() {
+        "race=none".to_string()
+    } else {
+        format!("race={}", an.pairs.iter().cloned().collect::<Vec<_>>().join("+"))
+    }
 }
 
 pub fn key_of(sys: Sys, category: &str, an: &Analysis) -> String {
-    let window = if an.preempt_sites.is_empty() { "sequential".to_string() } else { an.preempt_sites.join("+") };
-    format!("C11:{}:{}:{}", sys.name(), category, window)
+    if category.starts_with("panic:") {
+        // the root cause of a panic is its site, whatever race led there
+        return format!("C11:{}:{}", sys.name(), category);
+    }
+    format!("C11:{}:{}:{}", sys.name(), category, race_of(an))
+}
+
+/// Does the race named by `key` (a key of this system and `category`) occur in the run
+/// analysed as `an`? Used to attribute a failing run to a listed / already reported
+/// finding without reducing it again.
+pub fn key_matches(key: &str, sys: Sys, category: &str, an: &Analysis) -> bool {
+    if category.starts_with("panic:") {
+        return key == format!("C11:{}:{}", sys.name(), category);
+    }
+    let prefix = format!("C11:{}:{}:", sys.name(), category);
+    let Some(race) = key.strip_prefix(&prefix) else { return false };
+    match race {
+        "sequential" => an.preemptions == 0,
+        "whole-ops" => an.preemptions > 0 && an.midop_preemptions == 0,
+        "race=none" => an.midop_preemptions > 0 && an.pairs.is_empty(),
+        r => match r.strip_prefix("race=") {
+            Some(list) => list.split('+').all(|p| an.pairs.contains(p)),
+            None => false,
+        },
+    }
 }
 
 pub struct Keyed {
@@ -443,22 +624,13 @@ pub struct Keyed {
     pub case: Case,
 }
 
-/// All failures of a run, each with its narrow key (distinct categories only).
-pub fn keyed_failures(case: &Case, an: &Analysis) -> Result<Vec<Keyed>, String> {
-    let mut out: Vec<Keyed> = Vec::new();
-    let mut seen: Vec<&str> = Vec::new();
-    for f in &an.failures {
-        if seen.contains(&f.category.as_str()) {
-            continue;
-        }
-        seen.push(&f.category);
-        let (min_case, min_an) = minimize(case, &f.category)?;
-        let detail = min_an.failures.iter().find(|x| x.category == f.category).map(|x| x.detail.clone()).unwrap_or_else(|| f.detail.clone());
-        let key = key_of(case.sys, &f.category, &min_an);
-        let pre: Vec<String> = trace_summary(&min_case);
-        out.push(Keyed { key, msg: format!("{detail} || pre-emptions: {}", if pre.is_empty() { "none".into() } else { pre.join(", ") }), case: min_case });
-    }
-    Ok(out)
+/// Reduce the failure of `category` and give it its key.
+pub fn keyed_failure(case: &Case, category: &str) -> Result<Keyed, String> {
+    let (min_case, min_an) = minimize(case, category)?;
+    let detail = min_an.failures.iter().find(|x| x.category == category).map(|x| x.detail.clone()).unwrap_or_default();
+    let key = key_of(case.sys, category, &min_an);
+    let pre = trace_summary(&min_case);
+    Ok(Keyed { key, msg: format!("{detail} || pre-emptions: {}", if pre.is_empty() { "none".into() } else { pre.join(", ") }), case: min_case })
 }
 
 /// "t0 at memory.get.expired-guard-dropped -> t1" for every pre-emption of a (re-)run of `case`.
@@ -468,7 +640,7 @@ fn trace_summary(case: &Case) -> Vec<String> {
             .log
             .iter()
             .filter_map(|e| match e {
-                Entry::Point { thread, site, next } if thread != next => Some(format!("t{thread} at {site} -> t{next}")),
+                Entry::Point { thread, site, next, .. } if thread != next => Some(format!("t{thread} at {site} -> t{next}")),
                 _ => None,
             })
             .collect(),
